@@ -302,6 +302,15 @@ func c16Conflated(c *core.Ctx, n, pre int, order []int, custom bool) {
 			in.cancel()
 		}
 	}()
+	// the variadic slice is the caller's again: overwriting it (here: with an already-cancelled context) must not
+	// change what the result depends on
+	{
+		dead, kill := context.WithCancel(context.Background())
+		kill()
+		for i := range ctxs {
+			ctxs[i] = dead
+		}
+	}
 	if res.Value(ctxKey("k0")) != 0 {
 		c.Violate("conflated-values", "result does not carry the first input's value; %s", desc)
 	}
